@@ -1029,7 +1029,7 @@ def gen_macro_scenario(rng, prof=None, tier='quick'):
         return Txt(f'{n}+{b}', [t_lab(n), t_op('OAdd'), t_num(b)])
     kinds = ['dbl'] * 5 + ['mac1'] * 2 + ['mac2'] * 2 + ['swp', 'mac3', 'mac3', 'add3', 'add3', 'cmpq', 'cmpq', 'mac4', 'mac4', 'mac5', 'mac5',
                                                           'ldx', 'tst', 'psh2', 'psh2', 'mac6', 'mac6', 'jmpz2', 'jmpz2', 'swp2', 'add3b', 'add3b', 'add3b', 'cmpq2', 'cmpq2', 'cmpq2',
-                                                          'ld3', 'ld3', 'ld2', 'ld2', 'pop2', 'pop2', 'pop2', 'add4', 'add4', 'ldm', 'ldm', 'tri', 'tri']
+                                                          'ld3', 'ld3', 'ld2', 'ld2', 'pop2', 'pop2', 'pop2', 'add4', 'add4', 'add4', 'add4', 'ldm', 'ldm', 'tri', 'tri']
     # a program is rejected as a whole by one unacceptable statement: at most one statement kind that may be unacceptable
     risky_left = 1 if rng.random() < 0.5 else 0
     for _ in range(rng.randint(2, 7)):
@@ -1094,7 +1094,7 @@ def gen_macro_scenario(rng, prof=None, tier='quick'):
                                Txt('[ x + K9 ]', ['OLBr', t_lab('x'), t_op('OAdd'), t_lab('K9'), 'ORBr'])])
             stmts.append(['asm', rng.choice(['pop2', 'pop2', 'pop3']), [[form.text, form.toks]]])
         elif k == 'add4':
-            i = rng.choice([0, 3, -4, 7] + ([8, 9, -5, -6, 10, -7] if risky_left else []))
+            i = rng.choice([0, 3, -4, 7] + ([8, 9, -5, -6, 8, 9, 10, -7] if risky_left else []))
             risky_left = 0 if i not in (0, 3, -4, 7) else risky_left
             x = x_num(rng, i)
             stmts.append(['asm', 'add4', [['x+' + x.text, [t_lab('x'), t_op('OAdd')] + x.toks]]])
